@@ -27,6 +27,25 @@ ROCA_PRIMES = [3, 5, 7, 11, 13, 17, 19, 23, 29, 31, 37, 41, 43, 47, 53, 59, 61,
                137, 139, 149, 151, 157, 163, 167, 173]
 
 
+
+_SHIPPED = {}
+
+
+def _shipped_denylist():
+  """The shipped OpenSSL deny-list through the public storage interface."""
+  if 'deny' not in _SHIPPED:
+    from paranoid_crypto.lib.data import default_storage
+    _SHIPPED['deny'] = default_storage.DefaultStorage().GetOpensslDenylist()
+  return _SHIPPED['deny']
+
+
+def _shipped_keypair_table():
+  if 'keypair' not in _SHIPPED:
+    from paranoid_crypto.lib.data import default_storage
+    _SHIPPED['keypair'] = dict(
+        default_storage.DefaultStorage().GetKeypairData().table)
+  return _SHIPPED['keypair']
+
 def _primes_after_3(count):
   out, c = [], 5
   while len(out) < count:
@@ -271,7 +290,7 @@ def run_denylist(ctx, spec):
     key2 = gen.rsa_key(n)
     shipped.Check([key2])
     _expect(ctx, 'CheckOpensslDenylist', key2,
-            ('%s:%s' % (kt, fp)) in shipped._weak_keylist,
+            ('%s:%s' % (kt, fp)) in _shipped_denylist(),
             'shipped deny-list', {'n': n})
   try:
     ctx.sample({'check': 'CheckOpensslDenylist', 'n': n, 'fingerprint': fp,
@@ -362,8 +381,8 @@ def run_keypair_custom(ctx, spec):
     key = gen.rsa_key(n)
     shipped = rs.CheckKeypairDenylist()
     shipped.Check([key])
-    _expect(ctx, 'CheckKeypairDenylist', key, msb in shipped._table and len(
-        meta) == 1, 'shipped table, seed with %d non-zero bytes' % (
+    _expect(ctx, 'CheckKeypairDenylist', key, msb in _shipped_keypair_table()
+            and len(meta) == 1, 'shipped table, seed with %d non-zero bytes' % (
             1 + len(extra) // 2), {'seed': bytes(seed)})
   try:
     ctx.sample({'check': 'CheckKeypairDenylist/custom storage',
